@@ -24,7 +24,7 @@ def u(n):
     return ast.unparse(n)
 
 
-COQ_TY = {"MQ": "(list (list Z) * Z)", "F": "Z", "VF": "list Z", "VBcol": "list bool", "Z": "Z", "B": "bool", "Pos": "(Z * Z)", "VB": "list bool", "MB": "list (list bool)", "VPos": "list (Z * Z)", "VZ": "list Z",
+COQ_TY = {"VQ": "(list Z * Z)", "Q": "(Z * Z)", "MQ": "(list (list Z) * Z)", "F": "Z", "VF": "list Z", "VBcol": "list bool", "Z": "Z", "B": "bool", "Pos": "(Z * Z)", "VB": "list bool", "MB": "list (list bool)", "VPos": "list (Z * Z)", "VZ": "list Z",
           "MZ": "list (list Z)", "PB": "(bool * bool)", "VPB": "list (bool * bool)", "Ext": "unit", "Key": "unit"}
 
 PRELUDE = r'''(* element-wise operations on small fixed-rank arrays: a (2,) integer array is a pair, an (N, N) integer array a list of rows *)
@@ -140,6 +140,10 @@ class Tr:
                 return "(rnd (%s - %s))" % (a, b), "F"        # the ONE float operation that can be inexact: an explicit rounding
             if isinstance(n.op, ast.BitAnd) and ta == tb == "VB":
                 return "(zip_with andb %s %s)" % (a, b), "VB"
+            if isinstance(n.op, ast.Div) and ta == "VZ" and tb == "Z":
+                return "(%s, %s)" % (a, b), "VQ"
+            if isinstance(n.op, ast.Div) and ta == tb == "Z":
+                return "(%s, %s)" % (a, b), "Q"
             if isinstance(n.op, ast.Div) and ta == "MZ" and tb == "Z":
                 return "(%s, %s)" % (a, b), "MQ"        # element-wise float quotient, kept as (numerators, common denominator)
             if isinstance(n.op, ast.Mod) and ta == tb == "Z":
@@ -188,6 +192,9 @@ class Tr:
                 return "(%s %s %s)" % (fsym, a, b), "B"
             if ta == "VF" and tb == "F" and fsym:
                 return "(map (fun x_ : Z => %s x_ %s) %s)" % (fsym, b, a), "VB"
+            if ta == "Z" and tb == "VZ" and op in (ast.GtE, ast.Gt, ast.LtE, ast.Lt):
+                flip = {ast.GtE: "Z.leb", ast.Gt: "Z.ltb", ast.LtE: "Z.geb", ast.Lt: "Z.gtb"}[op]
+                return "(map (fun x_ : Z => %s x_ %s) %s)" % (flip, a, b), "VB"
             if ta == "VZ" and tb == "Z" and fsym:
                 return "(map (fun x_ : Z => %s x_ %s) %s)" % (fsym, b, a), "VB"
             if ta == "MZ" and tb == "Z" and fsym:
@@ -224,6 +231,8 @@ class Tr:
                     return "(jget [] %s %s)" % (v, i), "VB"
             if t == "VB" and isinstance(n.slice, ast.Slice) and n.slice.lower is None and n.slice.step is None and u(n.slice.upper) == "-1":
                 return "(removelast %s)" % v, "VB"
+            if t == "VZ" and not isinstance(n.slice, (ast.Tuple, ast.Slice)) and self.expr(n.slice)[1] == "Z":
+                return "(jget 0 %s %s)" % (v, self.expr(n.slice)[0]), "Z"
             if t == "VF" and not isinstance(n.slice, (ast.Tuple, ast.Slice)):
                 i, ti = self.expr(n.slice)
                 if ti == "Z":
@@ -478,6 +487,8 @@ class Tr:
             (m, tm), (lo, tl) = self.expr(n.args[0]), self.expr(n.args[1])
             if tm == "MZ" and tl == "Z":
                 return "(m_map (Z.max %s) %s)" % (lo, m), "MZ"
+        if f == "jnp.asarray" and len(n.args) == 2 and u(n.args[1]) == "float" and not kws and self.expr(n.args[0])[1] in ("VQ", "Q"):
+            return self.expr(n.args[0])
         if f == "jnp.asarray" and len(n.args) == 2 and u(n.args[1]) == "float" and not kws:
             v, t = self.expr(n.args[0])
             if t == "B":
